@@ -2,6 +2,7 @@ package vc
 
 import (
 	"fmt"
+	"runtime/debug"
 	"go/constant"
 	"go/token"
 	"go/types"
@@ -365,6 +366,9 @@ func (e *Exec) globalPtr(st *State, g *ssa.Global) Val {
 func (e *Exec) root(st *State, obj int) Val {
 	v, ok := st.Heap[obj]
 	if !ok {
+		if os.Getenv("GOVC_DEBUG") != "" {
+			debug.PrintStack()
+		}
 		e.bail("dangling object %d", obj)
 	}
 	if lz, ok := v.(*LazyVal); ok {
